@@ -912,7 +912,57 @@ func cvalOf(v reflect.Value) (string, string) {
 	return `CStr "?unsupported field type"`, "?"
 }
 
+// the constants written in Go source (same names as SpecConstants.go_constants), read from the compiled package
+func goConstants(e *Env) {
+	type gc struct {
+		name string
+		val  interface{}
+	}
+	list := []gc{
+		{"TARGET_AGGREGATORS_PER_COMMITTEE", uint64(common.TARGET_AGGREGATORS_PER_COMMITTEE)},
+		{"RANDOM_SUBNETS_PER_VALIDATOR", uint64(common.RANDOM_SUBNETS_PER_VALIDATOR)},
+		{"EPOCHS_PER_RANDOM_SUBNET_SUBSCRIPTION", uint64(common.EPOCHS_PER_RANDOM_SUBNET_SUBSCRIPTION)},
+		{"BLS_WITHDRAWAL_PREFIX", uint64(common.BLS_WITHDRAWAL_PREFIX)},
+		{"ETH1_ADDRESS_WITHDRAWAL_PREFIX", uint64(common.ETH1_ADDRESS_WITHDRAWAL_PREFIX)},
+		{"SYNC_COMMITTEE_SUBNET_COUNT", uint64(common.SYNC_COMMITTEE_SUBNET_COUNT)},
+		{"TARGET_AGGREGATORS_PER_SYNC_SUBCOMMITTEE", uint64(common.TARGET_AGGREGATORS_PER_SYNC_SUBCOMMITTEE)},
+		{"DOMAIN_BEACON_PROPOSER", common.DOMAIN_BEACON_PROPOSER}, {"DOMAIN_BEACON_ATTESTER", common.DOMAIN_BEACON_ATTESTER},
+		{"DOMAIN_RANDAO", common.DOMAIN_RANDAO}, {"DOMAIN_DEPOSIT", common.DOMAIN_DEPOSIT},
+		{"DOMAIN_VOLUNTARY_EXIT", common.DOMAIN_VOLUNTARY_EXIT}, {"DOMAIN_SELECTION_PROOF", common.DOMAIN_SELECTION_PROOF},
+		{"DOMAIN_AGGREGATE_AND_PROOF", common.DOMAIN_AGGREGATE_AND_PROOF}, {"DOMAIN_SYNC_COMMITTEE", common.DOMAIN_SYNC_COMMITTEE},
+		{"DOMAIN_SYNC_COMMITTEE_SELECTION_PROOF", common.DOMAIN_SYNC_COMMITTEE_SELECTION_PROOF},
+		{"DOMAIN_CONTRIBUTION_AND_PROOF", common.DOMAIN_CONTRIBUTION_AND_PROOF},
+		{"DOMAIN_BLS_TO_EXECUTION_CHANGE", common.DOMAIN_BLS_TO_EXECUTION_CHANGE},
+		{"BLOB_TX_TYPE", uint64(common.BLOB_TX_TYPE)}, {"VERSIONED_HASH_VERSION_KZG", uint64(common.VERSIONED_HASH_VERSION_KZG)},
+		{"FAR_FUTURE_EPOCH", uint64(common.FAR_FUTURE_EPOCH)}, {"BASE_REWARDS_PER_EPOCH", uint64(common.BASE_REWARDS_PER_EPOCH)},
+		{"DEPOSIT_CONTRACT_TREE_DEPTH", uint64(common.DEPOSIT_CONTRACT_TREE_DEPTH)}, {"SECONDS_PER_DAY", uint64(common.SECONDS_PER_DAY)},
+		{"GENESIS_SLOT", uint64(common.GENESIS_SLOT)}, {"GENESIS_EPOCH", uint64(common.GENESIS_EPOCH)},
+		{"JUSTIFICATION_BITS_LENGTH", uint64(common.JUSTIFICATION_BITS_LENGTH)},
+		{"TIMELY_SOURCE_FLAG_INDEX", uint64(altair.TIMELY_SOURCE_FLAG_INDEX)}, {"TIMELY_TARGET_FLAG_INDEX", uint64(altair.TIMELY_TARGET_FLAG_INDEX)},
+		{"TIMELY_HEAD_FLAG_INDEX", uint64(altair.TIMELY_HEAD_FLAG_INDEX)},
+		{"TIMELY_SOURCE_FLAG", uint64(altair.TIMELY_SOURCE_FLAG)}, {"TIMELY_TARGET_FLAG", uint64(altair.TIMELY_TARGET_FLAG)},
+		{"TIMELY_HEAD_FLAG", uint64(altair.TIMELY_HEAD_FLAG)},
+		{"TIMELY_SOURCE_WEIGHT", uint64(altair.TIMELY_SOURCE_WEIGHT)}, {"TIMELY_TARGET_WEIGHT", uint64(altair.TIMELY_TARGET_WEIGHT)},
+		{"TIMELY_HEAD_WEIGHT", uint64(altair.TIMELY_HEAD_WEIGHT)}, {"SYNC_REWARD_WEIGHT", uint64(altair.SYNC_REWARD_WEIGHT)},
+		{"PROPOSER_WEIGHT", uint64(altair.PROPOSER_WEIGHT)}, {"WEIGHT_DENOMINATOR", uint64(altair.WEIGHT_DENOMINATOR)},
+	}
+	for _, c := range list {
+		term, human := "", ""
+		switch v := c.val.(type) {
+		case uint64:
+			term, human = fmt.Sprintf("CN %d", v), fmt.Sprint(v)
+		case common.BLSDomainType:
+			term, human = `hex "`+hex.EncodeToString(v[:])+`"`, "0x"+hex.EncodeToString(v[:])
+		}
+		e.Add(Case{Coq: fmt.Sprintf("CConst \"go\" \"constants\" \"%s\" (%s)", c.name, term), Kind: "constant_go_source", NonTrivial: true,
+			JSON: map[string]interface{}{"fn": "Go constant (compiled value)", "name": c.name, "go_value": human}})
+	}
+	e.Add(Case{Coq: fmt.Sprintf("CConstCount \"go\" \"constants\" %d", len(list)), Kind: "constant_count", NonTrivial: true,
+		JSON: map[string]interface{}{"fn": "Go constants", "count": len(list)}})
+}
+
 func constants(e *Env) {
+	goConstants(e)
 	for _, nc := range []struct {
 		name string
 		spec *common.Spec
